@@ -534,6 +534,17 @@ class IntervalInterp(object):
                     return type_range(e.t, e.dt)
                 return (l[0] >> r[1], l[1] >> r[0])
             if op == '/':
+                # (x - x % k) / k  is exactly floor(x / k): the subtraction removes the remainder, so the quotient's
+                # lower bound does not drift (needed to bound the encoder's byte count from below)
+                num = self.unwrap(e.a[0])
+                if num is not None and num.k == 'bin' and num.op == '-' and r[0] == r[1] and r[0] > 0:
+                    kx = self.key_of(self.unwrap(num.a[0]))
+                    ky = self.key_of(self.unwrap(num.a[1]))
+                    d = st.facts.get(('def', ky)) if ky is not None else None
+                    xv = self.ev(num.a[0], st)
+                    if d is not None and kx is not None and d[0] == 'mod' and d[1] == kx and d[2] == r[0] and \
+                            xv is not None and xv[0] >= 0:
+                        return (xv[0] // r[0], xv[1] // r[0])
                 if r[0] <= 0 <= r[1]:
                     return type_range(e.t, e.dt)
                 c = [tdiv(a, b) for a in l for b in r]
@@ -585,6 +596,12 @@ class IntervalInterp(object):
         elif se.k == 'un' and se.op == '*':
             base = strip(se.a[0])
             off = 0
+            if base is not None and base.k == 'un' and base.op in ('++', '--') and strip(base.a[0]).k == 'var':
+                # *p++ : the side effect has been executed before the value is looked at (exec_expr runs first), so
+                # the byte read is the one before the pointer's current position; *++p reads at the current one
+                if base.post:
+                    off = -1 if base.op == '++' else 1
+                base = strip(base.a[0])
         else:
             return None
         if base is None or base.k != 'var':
@@ -638,6 +655,23 @@ class IntervalInterp(object):
         a = atom
         while a.k == 'cast':
             a = a.a[0]
+        if a.k == 'bin' and a.op in ('==', '!=') and const_value(a.a[1]) == 0:
+            # (x & 0x80) != 0 / == 0 : the stop-bit test spelled as a comparison
+            m = self.unwrap(a.a[0])
+            if m is not None and m.k == 'bin' and m.op == '&':
+                for x, y in ((m.a[0], m.a[1]), (m.a[1], m.a[0])):
+                    cy = const_value(y)
+                    kx = self.key_of(self.unwrap(x))
+                    xv = self.ev(x, st) if kx is not None else None
+                    if cy == 128 and kx is not None and xv is not None and 0 <= xv[0] and xv[1] <= 255:
+                        setbit = (a.op == '!=') == bool(label)
+                        if setbit:
+                            st.env[kx] = (max(xv[0], 128), xv[1])
+                            if kx in st.origin:
+                                st.stop = st.origin[kx]
+                        else:
+                            st.env[kx] = (xv[0], min(xv[1], 127))
+                        return
         if a.k == 'bin' and a.op in ('<', '>', '<=', '>=', '==', '!='):
             op = a.op
             if not label:
@@ -705,6 +739,8 @@ class IntervalInterp(object):
             base = strip(e.a[0])
         elif e.k == 'un' and e.op == '*':
             base = strip(e.a[0])
+            if base is not None and base.k == 'un' and base.op in ('++', '--'):
+                base = strip(base.a[0])
         return base is not None and base.k == 'var' and (base.decl in st.ptr or base.op in self.input_params)
 
     def assign(self, lhs, val, st, line, node):
